@@ -170,6 +170,11 @@ func (s *MultiEventSyncer) getSyncedUntil(ctx context.Context) (int64, error) {
 		}
 		return 0, err
 	}
+	if status.BlockNumber < int64(s.SyncStartBlockNumber) {
+		// A reorg close to the sync start rolls the sync status back to a block before it. Events
+		// older than the configured start must not be synced.
+		return int64(s.SyncStartBlockNumber), nil
+	}
 	return status.BlockNumber, nil
 }
 
